@@ -32,6 +32,8 @@ type MainCfg struct {
 	TweakCfg func(r *vlib.RNG, c *Cfg)
 	// Extra is called after each run (under no lock) for property-specific checks; it may return a failure text.
 	Extra func(p *Program, rr RunResult, rn *Runner) string
+	// Directed may supply a specially shaped program for job i (nil = use the random generator).
+	Directed func(r *vlib.RNG, i int) *Program
 }
 
 // Main runs the driver: corpus/replay handling, parallel program runs, shrinking, K-case files, result.
@@ -97,6 +99,12 @@ func Main(mc MainCfg) {
 				}
 				pool := GenPool(r, r.Range(8, 60), r.Chance(1, 8))
 				p := GenProgram(r, cfg, pool, r.Range(nops/3, nops), mc.Weights)
+				if mc.Directed != nil {
+					if dp := mc.Directed(r, j.i); dp != nil {
+						p, cfg = dp, dp.Cfg
+						res.Count("directed_programs", 1)
+					}
+				}
 				p.Seed = a.Seed
 				collect := len(mc.KPrefixes) > 0 && j.i%2 == 0
 				var kr *vlib.RNG
@@ -142,6 +150,9 @@ func Main(mc MainCfg) {
 				d := Describe(rr)
 				if d == "" && mc.Extra != nil {
 					d = mc.Extra(p, rr, rn)
+				}
+				if d != "" {
+					res.Count("runs_failed", 1)
 				}
 				if d != "" && res.NViolations() < 6 {
 					q, d2 := p, ""
